@@ -24,6 +24,15 @@ def attributes(s, st):
         s = s[:m.start()] + s[e + 1:]
         n += 1
     s, k = re.subn(r'\bnoexcept\b(\s*\([^)]*\))?', '', s); n += k
+    while True:      # __builtin_expect((x), c) -> (x)   (QUILL_LIKELY / QUILL_UNLIKELY)
+        m = re.search(r'__builtin_expect\s*\(', s)
+        if not m:
+            break
+        e = match(s, m.end() - 1, '(', ')')
+        inner = s[m.end():e]
+        k2 = inner.rfind(',')
+        s = s[:m.start()] + '(' + inner[:k2].strip() + ')' + s[e + 1:]
+        n += 1
     bump(st, 'attributes', n)
     return s
 
